@@ -1,8 +1,1754 @@
-//! C12 – not implemented yet.
-use mvlib::Ctx;
-use serde_json::Value;
+//! C12 – formatting never changes what a program means and never loses comments.
+//! C13 – formatting is idempotent.
+//!
+//! One enumeration, two oracles (`ctx.id` selects which one is evaluated and reported):
+//!
+//! programs = every valid base program (C08's set + 4 formatter-specific shapes)
+//!            x { 11 whole-file variants (plain, blank lines, indentation, CRLF, comments before
+//!                end of file), one comment per trivia slot: `/* c1 */` at ws slots; at mws slots
+//!                also `// c2`, a two-line block comment, and - where the slot holds a line break -
+//!                a line / block comment ending the previous line }
+//!            (thorough: also all pairs of comments at most 6 terminals apart, distinct texts)
+//! configurations = mnemonic casing 2 x register casing 2 x brace position 2 x indent 5 x
+//!            label margin 4 x label alignment 2 x code margin 3 (960); quick = default + the 13
+//!            one-factor deviations; thorough = all 960 for bound 1, the 14 for the pairs.
+//!
+//! C12 oracles per (program, configuration): (1) formatted text parses without diagnostics,
+//! (2) code token string unchanged, (3) bytes / symbols / diagnostics unchanged, (4) comment
+//! sequence unchanged; (5) `mos format` (real binary) writes exactly the in-process formatter's
+//! text into every file of a 1-3 file project and touches nothing when a file has a parse error.
+//! C13 oracle: format(format(p)) == format(p); a third application tells drift from a cycle.
+//!
+//! Signatures: a failure the uncommented program shows as well is attributed to it (reduced to
+//! the smallest statements failing alone); in slot signatures a component is `*` when every
+//! enumerated program matching the rest fails the same way.
+//! `VERIF_C12_DUMP=<verdict>` prints every bound-1 case with that verdict (e.g. `two-cycle`).
 
-pub fn run(_ctx: &Ctx, _replay: Option<&Value>) -> i32 {
-    eprintln!("C12: engine not implemented yet");
-    2
+use crate::probe::{self, Opts};
+use crate::props::c08::{self, Meaning};
+use crate::util::par_each;
+use mos_core::formatting::{
+    format, Alignment, BraceOptions, BracePosition, Casing, FormattingOptions, MnemonicOptions,
+    WhitespaceOptions,
+};
+use mos_core::parser::ParseTree;
+use mvlib::grammar::*;
+use mvlib::isa::Isa;
+use mvlib::panics::{guard, PanicInfo};
+use mvlib::progs::{Prog, OTHER_ASM};
+use mvlib::{fnv_str, Ctx, Finding};
+use serde_json::{json, Value};
+use std::collections::{BTreeMap, BTreeSet, HashMap};
+use std::path::{Path, PathBuf};
+use std::process::Command;
+use std::sync::atomic::{AtomicU64, Ordering};
+use std::sync::{Arc, Mutex};
+
+// ------------------------------------------------------------------------------------------------
+// formatter configurations
+
+const FACTORS: [&str; 7] = [
+    "mnemonic-casing",
+    "register-casing",
+    "brace-position",
+    "indent",
+    "label-margin",
+    "label-alignment",
+    "code-margin",
+];
+
+/// value lists per factor; index 0 is the default value
+const VALUES: [&[usize]; 7] = [
+    &[0, 1],           // lowercase, uppercase
+    &[0, 1],           // lowercase, uppercase
+    &[0, 1],           // same-line, new-line
+    &[4, 0, 1, 2, 8],  // indent
+    &[20, 0, 1, 8],    // label margin
+    &[0, 1],           // right, left
+    &[30, 0, 10],      // code margin
+];
+
+#[derive(Clone, Copy, Debug, PartialEq, Eq, Hash)]
+struct Cfg {
+    /// value (not index) per factor
+    v: [usize; 7],
+}
+
+impl Cfg {
+    fn default() -> Cfg {
+        Cfg {
+            v: [0, 0, 0, 4, 20, 0, 30],
+        }
+    }
+
+    fn opts(&self) -> FormattingOptions {
+        let casing = |b: usize| if b == 1 { Casing::Uppercase } else { Casing::Lowercase };
+        FormattingOptions {
+            mnemonics: MnemonicOptions {
+                casing: casing(self.v[0]),
+                register_casing: casing(self.v[1]),
+            },
+            braces: BraceOptions {
+                position: if self.v[2] == 1 {
+                    BracePosition::NewLine
+                } else {
+                    BracePosition::SameLine
+                },
+            },
+            whitespace: WhitespaceOptions {
+                indent: self.v[3],
+                label_margin: self.v[4],
+                label_alignment: if self.v[5] == 1 { Alignment::Left } else { Alignment::Right },
+                code_margin: self.v[6],
+            },
+            ..Default::default()
+        }
+    }
+
+    fn value_name(&self, f: usize) -> String {
+        match f {
+            0 | 1 => (if self.v[f] == 1 { "uppercase" } else { "lowercase" }).to_string(),
+            2 => (if self.v[f] == 1 { "new-line" } else { "same-line" }).to_string(),
+            5 => (if self.v[f] == 1 { "left" } else { "right" }).to_string(),
+            _ => self.v[f].to_string(),
+        }
+    }
+
+    /// factors whose value is not the default one
+    fn deviating(&self) -> Vec<usize> {
+        let d = Cfg::default();
+        (0..7).filter(|f| self.v[*f] != d.v[*f]).collect()
+    }
+
+    fn name(&self) -> String {
+        let dev = self.deviating();
+        if dev.is_empty() {
+            return "default".into();
+        }
+        dev.iter()
+            .map(|f| format!("{}={}", FACTORS[*f], self.value_name(*f)))
+            .collect::<Vec<_>>()
+            .join(",")
+    }
+
+    fn json(&self) -> Value {
+        // only the factors that deviate from the default (`{}` = default configuration)
+        let mut m = serde_json::Map::new();
+        for f in self.deviating() {
+            m.insert(FACTORS[f].to_string(), json!(self.value_name(f)));
+        }
+        Value::Object(m)
+    }
+
+    fn from_json(v: &Value) -> Cfg {
+        let mut c = Cfg::default();
+        for f in 0..7 {
+            if let Some(s) = v.get(FACTORS[f]).and_then(|x| x.as_str()) {
+                c.v[f] = match s {
+                    "uppercase" | "new-line" | "left" => 1,
+                    "lowercase" | "same-line" | "right" => 0,
+                    n => n.parse().unwrap_or(c.v[f]),
+                };
+            }
+        }
+        c
+    }
+
+    /// `[formatting]` section of mos.toml; `only_deviating` leaves the default-valued keys out
+    fn toml(&self, only_deviating: bool) -> String {
+        let keys = [
+            "mnemonics.casing",
+            "mnemonics.register-casing",
+            "braces.position",
+            "whitespace.indent",
+            "whitespace.label-margin",
+            "whitespace.label-alignment",
+            "whitespace.code-margin",
+        ];
+        let dev = self.deviating();
+        let mut s = String::from("[formatting]\n");
+        for f in 0..7 {
+            if only_deviating && !dev.contains(&f) {
+                continue;
+            }
+            match f {
+                3 | 4 | 6 => s.push_str(&format!("{} = {}\n", keys[f], self.v[f])),
+                _ => s.push_str(&format!("{} = '{}'\n", keys[f], self.value_name(f))),
+            }
+        }
+        s
+    }
+}
+
+/// default, then the one-factor deviations, then (if `full`) the rest of the product
+fn configurations(full: bool, sub: &[&[usize]; 7]) -> Vec<Cfg> {
+    let mut out = vec![Cfg::default()];
+    for f in 0..7 {
+        for val in VALUES[f].iter().skip(1) {
+            let mut c = Cfg::default();
+            c.v[f] = *val;
+            out.push(c);
+        }
+    }
+    if full {
+        let mut idx = [0usize; 7];
+        loop {
+            let mut c = Cfg::default();
+            for f in 0..7 {
+                c.v[f] = sub[f][idx[f]];
+            }
+            if !out.contains(&c) {
+                out.push(c);
+            }
+            let mut f = 0;
+            loop {
+                idx[f] += 1;
+                if idx[f] < sub[f].len() {
+                    break;
+                }
+                idx[f] = 0;
+                f += 1;
+                if f == 7 {
+                    return out;
+                }
+            }
+        }
+    }
+    out
+}
+
+// ------------------------------------------------------------------------------------------------
+// own lexer (clauses 2 and 4)
+
+#[derive(Clone, Debug, PartialEq, Eq)]
+enum Tok {
+    Word(String),
+    Sym(char),
+    Str(String),
+    Comment(String),
+}
+
+/// Strings `"…"` and comments (`// …` to end of line, nesting `/* … */`) are kept whole,
+/// whitespace is dropped, words ([A-Za-z0-9_]+) are ASCII case folded, every other character is
+/// a token of its own.
+fn lex(text: &str) -> Vec<Tok> {
+    let b: Vec<char> = text.chars().collect();
+    let n = b.len();
+    let at = |i: usize| if i < n { b[i] } else { '\0' };
+    let mut out = vec![];
+    let mut i = 0;
+    while i < n {
+        let c = b[i];
+        if c.is_whitespace() {
+            i += 1;
+        } else if c == '/' && at(i + 1) == '/' {
+            let mut j = i;
+            while j < n && b[j] != '\n' && b[j] != '\r' {
+                j += 1;
+            }
+            out.push(Tok::Comment(b[i..j].iter().collect()));
+            i = j;
+        } else if c == '/' && at(i + 1) == '*' {
+            let mut depth = 1;
+            let mut j = i + 2;
+            while j < n && depth > 0 {
+                if b[j] == '/' && at(j + 1) == '*' {
+                    depth += 1;
+                    j += 2;
+                } else if b[j] == '*' && at(j + 1) == '/' {
+                    depth -= 1;
+                    j += 2;
+                } else {
+                    j += 1;
+                }
+            }
+            let j = j.min(n);
+            out.push(Tok::Comment(b[i..j].iter().collect()));
+            i = j;
+        } else if c == '"' {
+            let mut j = i + 1;
+            while j < n && b[j] != '"' {
+                j += 1;
+            }
+            let j = (j + 1).min(n);
+            out.push(Tok::Str(b[i..j].iter().collect()));
+            i = j;
+        } else if c.is_ascii_alphanumeric() || c == '_' {
+            let mut j = i;
+            while j < n && (b[j].is_ascii_alphanumeric() || b[j] == '_') {
+                j += 1;
+            }
+            out.push(Tok::Word(b[i..j].iter().collect::<String>().to_ascii_lowercase()));
+            i = j;
+        } else {
+            out.push(Tok::Sym(c));
+            i += 1;
+        }
+    }
+    out
+}
+
+fn code_tokens(toks: &[Tok]) -> Vec<String> {
+    toks.iter()
+        .filter_map(|t| match t {
+            Tok::Word(w) => Some(w.clone()),
+            Tok::Sym(c) => Some(c.to_string()),
+            Tok::Str(s) => Some(s.clone()),
+            Tok::Comment(_) => None,
+        })
+        .collect()
+}
+
+fn comments(toks: &[Tok]) -> Vec<String> {
+    toks.iter()
+        .filter_map(|t| match t {
+            Tok::Comment(c) => Some(c.split_whitespace().collect::<Vec<_>>().join(" ")),
+            _ => None,
+        })
+        .collect()
+}
+
+// ------------------------------------------------------------------------------------------------
+// programs
+
+const COMMENT_KINDS: [&str; 5] = ["block", "line", "mblock", "eol-line", "eol-block"];
+/// first / second comment text of each kind (distinct texts so that order is observable).
+/// Kinds 0-2 are inserted directly before the terminal (after its separator); the `eol` kinds
+/// replace a line-break separator, i.e. the comment ends the previous line.
+const COMMENT_TEXT: [[&str; 2]; 5] = [
+    ["/* c1 */", "/* d1 */"],
+    ["// c2\n", "// d2\n"],
+    ["/* a\n   b */", "/* e\n   f */"],
+    [" // c3\n", " // d3\n"],
+    [" /* c4 */\n", " /* d4 */\n"],
+];
+
+fn comment_dev(slot: (usize, usize), which: usize) -> Dev {
+    let text = COMMENT_TEXT[slot.1][which].to_string();
+    if slot.1 >= 3 {
+        Dev::Sep(slot.0, text)
+    } else {
+        Dev::Insert(slot.0, text)
+    }
+}
+
+#[derive(Clone, Debug)]
+struct Lab {
+    construct: String,
+    before: String,
+    after: String,
+    ckind: &'static str,
+}
+
+impl Lab {
+    fn s(&self) -> String {
+        format!("{}:{}|{}:{}", self.construct, self.before, self.after, self.ckind)
+    }
+}
+
+#[derive(Clone)]
+struct Item {
+    prog: usize,
+    text: String,
+    labs: Vec<Lab>,
+    /// (terminal index, comment kind) of the comments, for looking up the single-comment results
+    keys: Vec<(usize, usize)>,
+}
+
+fn term_kind(r: &Rendered, i: usize) -> String {
+    let t = &r.terms[i];
+    match t.kind {
+        Kind::Punct | Kind::Op => format!("'{}'", t.text),
+        Kind::Directive | Kind::Keyword => t.text.to_lowercase(),
+        k => k.name().to_string(),
+    }
+}
+
+fn slot_lab(r: &Rendered, i: usize, kind: usize) -> Lab {
+    // the terminal before a statement's first terminal belongs to another statement: only its
+    // role is kept (start of file, block start / end, label, any other statement = `^`)
+    let stmt = r.terms[i].stmt;
+    let before = if i == 0 {
+        "bof".to_string()
+    } else if r.stmts[stmt].first == i && r.terms[i - 1].stmt != stmt {
+        match r.terms[i - 1].text.as_str() {
+            "{" | "}" | ":" => term_kind(r, i - 1),
+            _ => "^".to_string(),
+        }
+    } else {
+        term_kind(r, i - 1)
+    };
+    Lab {
+        construct: r.kinds[stmt].to_string(),
+        before,
+        after: term_kind(r, i),
+        ckind: COMMENT_KINDS[kind],
+    }
+}
+
+/// (terminal index, comment kind) for every comment slot
+fn comment_slots(r: &Rendered) -> Vec<(usize, usize)> {
+    let mut out = vec![];
+    for (i, t) in r.terms.iter().enumerate() {
+        match t.slot {
+            Slot::None => {}
+            Slot::Ws => out.push((i, 0)),
+            Slot::Mws => {
+                for k in 0..3 {
+                    out.push((i, k));
+                }
+                if t.sep == "\n" {
+                    out.push((i, 3));
+                    out.push((i, 4));
+                }
+            }
+        }
+    }
+    out
+}
+
+fn extra_programs() -> Vec<Prog> {
+    use mvlib::isa::Form;
+    let nop = || imp("nop");
+    let p = |name: &str, stmts: Vec<Stmt>| Prog {
+        name: name.to_string(),
+        stmts,
+        valid: true,
+    };
+    vec![
+        p(
+            "fmt-long-labels",
+            vec![
+                label("a_label_longer_than_the_label_margin"),
+                nop(),
+                label("x"),
+                nop(),
+                label_block("another_quite_long_label_name", vec![nop(), label("inner_label_that_is_long_too"), imp("rts")]),
+            ],
+        ),
+        p(
+            "fmt-label-runs",
+            vec![
+                label("l1"),
+                label("l2"),
+                nop(),
+                label("d1"),
+                byte(vec![num(1), num(2)]),
+                label("t1"),
+                Stmt::Text {
+                    encoding: None,
+                    value: string("ab"),
+                },
+                label("e1"),
+            ],
+        ),
+        p(
+            "fmt-empty-blocks",
+            vec![
+                Stmt::Braces(vec![]),
+                label_block("e", vec![]),
+                Stmt::Loop {
+                    count: num(2),
+                    body: vec![],
+                },
+                Stmt::If {
+                    cond: num(1),
+                    then: vec![],
+                    els: Some(vec![]),
+                },
+                Stmt::Test {
+                    name: "t".into(),
+                    body: vec![],
+                },
+                nop(),
+            ],
+        ),
+        p(
+            "fmt-mixed-kinds",
+            vec![
+                konst("c", num(1)),
+                konst("d", num(2)),
+                ins("lda", Form::Imm, id("c")),
+                byte(vec![id("d")]),
+                ins("ldx", Form::Imm, id("d")),
+                Stmt::Braces(vec![nop()]),
+                Stmt::Braces(vec![nop()]),
+                Stmt::If {
+                    cond: id("c"),
+                    then: vec![nop()],
+                    els: None,
+                },
+                label("after_if"),
+                imp("rts"),
+            ],
+        ),
+    ]
+}
+
+const FILE_VARIANTS: [&str; 11] = [
+    "plain",
+    "blank-lines",
+    "indented",
+    "leading-blank",
+    "trailing-newline",
+    "trailing-blank-lines",
+    "crlf",
+    "eof-line-comment",
+    "eof-block-comment",
+    "eof-own-line-comment",
+    "eof-mblock-comment",
+];
+
+fn file_variant(base: &str, v: &str) -> (String, &'static str) {
+    match v {
+        "plain" => (base.to_string(), "none"),
+        "blank-lines" => (base.replace('\n', "\n\n\n"), "none"),
+        "indented" => (format!("  {}", base.replace('\n', "\n\t  ")), "none"),
+        "leading-blank" => (format!("\n\n  {}", base), "none"),
+        "trailing-newline" => (format!("{}\n", base), "none"),
+        "trailing-blank-lines" => (format!("{}\n\n\n", base), "none"),
+        "crlf" => (base.replace('\n', "\r\n"), "none"),
+        "eof-line-comment" => (format!("{} // c2", base), "line"),
+        "eof-block-comment" => (format!("{} /* c1 */", base), "block"),
+        "eof-own-line-comment" => (format!("{}\n// c2\n", base), "line"),
+        "eof-mblock-comment" => (format!("{}\n/* a\n   b */\n", base), "mblock"),
+        _ => unreachable!(),
+    }
+}
+
+// ------------------------------------------------------------------------------------------------
+// evaluation of one program under a list of configurations
+
+type Tree = Arc<ParseTree>;
+
+fn parse_main(text: &str) -> Result<(Option<Tree>, Vec<probe::Diag>), PanicInfo> {
+    probe::parse_files(&[("main.asm", text), ("other.asm", OTHER_ASM)])
+}
+
+fn fmt_guard(tree: &Tree, cfg: &Cfg) -> Result<String, PanicInfo> {
+    let t = tree.clone();
+    let o = cfg.opts();
+    guard(move || format("main.asm", t, o))
+}
+
+struct Orig {
+    code: Vec<String>,
+    comments: Vec<String>,
+    meaning: Meaning,
+}
+
+/// a failing clause of one (program, configuration) case
+struct Fail {
+    cfg: usize,
+    /// C12: lost | merged-into-code | reordered | duplicated | parse-error | tokens | bytes |
+    /// diagnostics | symbols | panic;  C13: drift | two-cycle | settles | panic
+    verdict: String,
+    what: String,
+}
+
+#[derive(Default)]
+struct Stats {
+    parsed: bool,
+    cases: u64,
+    changed: u64,
+    unchanged: u64,
+    outputs: Vec<u64>,
+    second_parse_failed: u64,
+    meanings: u64,
+    /// the comments of the program are all still there after formatting with the first configuration
+    survives: bool,
+}
+
+fn show(s: &str) -> String {
+    if s.len() > 600 {
+        let mut end = 600;
+        while !s.is_char_boundary(end) {
+            end -= 1;
+        }
+        format!("{:?}…", &s[..end])
+    } else {
+        format!("{:?}", s)
+    }
+}
+
+/// C12 clauses 1-4 for one formatted text
+fn analyse12(orig: &Orig, f1: &str, opts: &Opts, stats: &mut Stats) -> Vec<(String, String)> {
+    let mut out = vec![];
+    let parsed = parse_main(f1);
+    let mut parses = false;
+    match &parsed {
+        Err(p) => out.push((
+            "panic".to_string(),
+            format!("parser panics on the formatted text: {} at {}; formatted {}", p.message, p.site, show(f1)),
+        )),
+        Ok((_, d)) if !d.is_empty() => out.push((
+            "parse-error".to_string(),
+            format!("formatted text does not parse: {}; formatted {}", d[0].short(), show(f1)),
+        )),
+        Ok((None, _)) => out.push(("parse-error".to_string(), format!("no parse tree for formatted {}", show(f1)))),
+        Ok(_) => parses = true,
+    }
+    let toks = lex(f1);
+    let code = code_tokens(&toks);
+    let cmts = comments(&toks);
+    // a comment of the formatted text that is an original comment plus more text: code was swallowed
+    let merged = cmts
+        .iter()
+        .find(|c| !orig.comments.contains(c) && orig.comments.iter().any(|o| c.starts_with(o.as_str()) && o.starts_with("//")));
+    if code != orig.code {
+        let pos = code.iter().zip(orig.code.iter()).position(|(a, b)| a != b).unwrap_or(code.len().min(orig.code.len()));
+        let ctx_of = |v: &Vec<String>| v[pos.saturating_sub(2)..(pos + 3).min(v.len())].join(" ");
+        if let Some(m) = merged {
+            out.push((
+                "merged-into-code".to_string(),
+                format!("code swallowed by comment {:?}: tokens around #{}: original `{}` formatted `{}`; formatted {}", m, pos, ctx_of(&orig.code), ctx_of(&code), show(f1)),
+            ));
+        } else {
+            out.push((
+                "tokens".to_string(),
+                format!("token string differs at #{}: original `{}` formatted `{}`; formatted {}", pos, ctx_of(&orig.code), ctx_of(&code), show(f1)),
+            ));
+        }
+    }
+    if cmts != orig.comments && !(merged.is_some() && code != orig.code) {
+        let mut a = orig.comments.clone();
+        let mut b = cmts.clone();
+        a.sort();
+        b.sort();
+        let verdict = if a == b {
+            "reordered"
+        } else {
+            // multiset difference
+            let mut rest = b.clone();
+            let mut missing = false;
+            for c in &a {
+                match rest.iter().position(|x| x == c) {
+                    Some(p) => {
+                        rest.remove(p);
+                    }
+                    None => missing = true,
+                }
+            }
+            if missing {
+                "lost"
+            } else {
+                "duplicated"
+            }
+        };
+        out.push((
+            verdict.to_string(),
+            format!("comments {:?} became {:?}; formatted {}", orig.comments, cmts, show(f1)),
+        ));
+    }
+    if parses {
+        stats.meanings += 1;
+        let m = c08::meaning_of(f1, opts);
+        if let Some(d) = c08::diff(&orig.meaning, &m) {
+            out.push((c08::what_kind(&d).to_string(), format!("{}; formatted {}", d, show(f1))));
+        }
+    }
+    out
+}
+
+/// The C12 clauses must flag hand-made violations (and accept a harmless change); otherwise the
+/// engine is broken, which is a machinery failure and never a verdict.
+fn self_check(opts: &Opts) -> Result<(), String> {
+    let cases: [(&str, &str, &[&str]); 7] = [
+        ("nop // c2\nlda #1", "nop // c2 lda #1", &["merged-into-code", "bytes"]),
+        ("/* c1 */ nop /* d1 */", "/* d1 */ nop /* c1 */", &["reordered"]),
+        ("lda #1 /* c1 */", "lda #1", &["lost"]),
+        ("lda #1 /* c1 */", "lda #1 /* c1 */ /* c1 */", &["duplicated"]),
+        ("lda #1", "lda #2", &["tokens", "bytes"]),
+        ("lda #1", "lda #", &["parse-error", "tokens"]),
+        ("LDA #1 /* a\n b */", "    lda   #1   /* a\n           b */", &[]),
+    ];
+    for (orig, formatted, want) in cases {
+        let toks = lex(orig);
+        let o = Orig {
+            code: code_tokens(&toks),
+            comments: comments(&toks),
+            meaning: c08::meaning_of(orig, opts),
+        };
+        let mut st = Stats::default();
+        let mut got: Vec<String> = analyse12(&o, formatted, opts, &mut st).into_iter().map(|v| v.0).collect();
+        got.sort();
+        let mut want: Vec<String> = want.iter().map(|s| s.to_string()).collect();
+        want.sort();
+        if got != want {
+            return Err(format!("oracle self-check: {:?} -> {:?} gives {:?}, expected {:?}", orig, formatted, got, want));
+        }
+    }
+    Ok(())
+}
+
+struct Mode {
+    do12: bool,
+    do13: bool,
+}
+
+/// Runs one program text through all configurations; returns the failing clauses in
+/// configuration order.
+fn process(ctx: &Ctx, text: &str, cfgs: &[Cfg], mode: &Mode, opts: &Opts, stats: &mut Stats) -> Vec<Fail> {
+    let mut fails = vec![];
+    let tree0 = match parse_main(text) {
+        Ok((Some(t), d)) if d.is_empty() => t,
+        _ => return fails,
+    };
+    stats.parsed = true;
+    let toks = lex(text);
+    let orig = Orig {
+        code: code_tokens(&toks),
+        comments: comments(&toks),
+        meaning: if mode.do12 {
+            c08::meaning_of(text, opts)
+        } else {
+            Meaning {
+                segs: vec![],
+                symbols: BTreeMap::new(),
+                messages: vec![],
+                panic: None,
+            }
+        },
+    };
+    struct Cached {
+        tree: Option<Tree>,
+        c12: Vec<(String, String)>,
+    }
+    let mut cache: HashMap<String, Cached> = HashMap::new();
+    let th = fnv_str(text);
+    for (ci, cfg) in cfgs.iter().enumerate() {
+        ctx.eval(|| json!({"main.asm": text, "config": cfg.name()}));
+        stats.cases += 1;
+        let f1 = match fmt_guard(&tree0, cfg) {
+            Ok(f) => f,
+            Err(p) => {
+                fails.push(Fail {
+                    cfg: ci,
+                    verdict: "panic".into(),
+                    what: format!("formatter panics: {} at {}", p.message, p.site),
+                });
+                continue;
+            }
+        };
+        if ci == 0 {
+            stats.survives = comments(&lex(&f1)) == orig.comments;
+        }
+        if f1 != text {
+            stats.changed += 1;
+        } else {
+            stats.unchanged += 1;
+        }
+        if !cache.contains_key(&f1) {
+            if f1 != text {
+                stats.outputs.push(th ^ fnv_str(&f1).rotate_left(17));
+            }
+            let c12 = if mode.do12 { analyse12(&orig, &f1, opts, stats) } else { vec![] };
+            let tree = if mode.do13 {
+                match parse_main(&f1) {
+                    Ok((Some(t), d)) if d.is_empty() => Some(t),
+                    _ => None,
+                }
+            } else {
+                None
+            };
+            cache.insert(f1.clone(), Cached { tree, c12 });
+        }
+        let c = &cache[&f1];
+        if mode.do12 {
+            for (v, w) in &c.c12 {
+                fails.push(Fail {
+                    cfg: ci,
+                    verdict: v.clone(),
+                    what: format!("[{}] {}", cfg.name(), w),
+                });
+            }
+        }
+        if mode.do13 {
+            let t1 = match &c.tree {
+                Some(t) => t.clone(),
+                None => {
+                    // the formatted text does not parse: C12's business, no verdict here
+                    stats.second_parse_failed += 1;
+                    continue;
+                }
+            };
+            match fmt_guard(&t1, cfg) {
+                Err(p) => fails.push(Fail {
+                    cfg: ci,
+                    verdict: "panic".into(),
+                    what: format!("[{}] second formatting panics: {} at {}; first result {}", cfg.name(), p.message, p.site, show(&f1)),
+                }),
+                Ok(f2) if f2 == f1 => {}
+                Ok(f2) => {
+                    // third application: drift or cycle?
+                    let f3 = match parse_main(&f2) {
+                        Ok((Some(t), d)) if d.is_empty() => fmt_guard(&t, cfg).ok(),
+                        _ => None,
+                    };
+                    let shape = match &f3 {
+                        Some(f3) if *f3 == f2 => "settles",
+                        Some(f3) if *f3 == f1 => "two-cycle",
+                        Some(_) => "drift",
+                        None => "second-result-unparsable",
+                    };
+                    let line = f1
+                        .lines()
+                        .zip(f2.lines())
+                        .position(|(a, b)| a != b)
+                        .unwrap_or(f1.lines().count().min(f2.lines().count()));
+                    fails.push(Fail {
+                        cfg: ci,
+                        verdict: shape.into(),
+                        what: format!(
+                            "[{}] format(format(p)) != format(p) ({}; third application: {}): first differing line {}: {:?} -> {:?}{}; format(p) = {}",
+                            cfg.name(),
+                            shape,
+                            match &f3 {
+                                Some(f3) if *f3 == f2 => "equals the second",
+                                Some(f3) if *f3 == f1 => "equals the first",
+                                Some(_) => "differs again",
+                                None => "not possible",
+                            },
+                            line + 1,
+                            f1.lines().nth(line).unwrap_or(""),
+                            f2.lines().nth(line).unwrap_or(""),
+                            match &f3 {
+                                Some(f3) if *f3 != f2 && *f3 != f1 => format!(" -> {:?}", f3.lines().nth(line).unwrap_or("")),
+                                _ => String::new(),
+                            },
+                            show(&f1)
+                        ),
+                    });
+                }
+            }
+        }
+    }
+    fails
+}
+
+fn case_json(text: &str, prog: &str, cfg: &Cfg) -> Value {
+    json!({"kind": "format", "program": prog, "files": {"main.asm": text, "other.asm": OTHER_ASM}, "config": cfg.json()})
+}
+
+/// C13: which configuration factor matters (cfgs are ordered default, one-factor deviations, rest)
+struct FactorTracker {
+    default_fails: bool,
+    one_factor: [bool; 7],
+}
+
+impl FactorTracker {
+    fn new() -> Self {
+        FactorTracker {
+            default_fails: false,
+            one_factor: [false; 7],
+        }
+    }
+    fn factor(&mut self, cfg: &Cfg) -> String {
+        let dev = cfg.deviating();
+        if dev.is_empty() {
+            self.default_fails = true;
+        }
+        if self.default_fails {
+            return "any".into();
+        }
+        if dev.len() == 1 {
+            self.one_factor[dev[0]] = true;
+            return FACTORS[dev[0]].into();
+        }
+        let known: Vec<&str> = dev.iter().filter(|f| self.one_factor[**f]).map(|f| FACTORS[*f]).collect();
+        if !known.is_empty() {
+            known.join("+")
+        } else {
+            format!("combination({})", dev.iter().map(|f| FACTORS[*f]).collect::<Vec<_>>().join("+"))
+        }
+    }
+}
+
+// ------------------------------------------------------------------------------------------------
+// clause 5: the real binary
+
+struct Project {
+    files: Vec<(String, String)>,
+    toml: Option<String>,
+    cfg: Cfg,
+    shape: &'static str,
+    /// index of the file with the injected parse error
+    error_in: Option<usize>,
+}
+
+const PARSE_ERROR: &str = "\nlda #\n.byte ,\n";
+
+fn mos_path(ctx: &Ctx) -> PathBuf {
+    std::env::var("MOS_BIN")
+        .map(PathBuf::from)
+        .unwrap_or_else(|_| ctx.verif_root.join(".build/bin/release/mos"))
+}
+
+struct CliObs {
+    exit: Option<i32>,
+    stderr: String,
+    files: Vec<(String, Vec<u8>)>,
+}
+
+fn run_cli(mos: &Path, dir: &Path, p: &Project) -> Result<CliObs, String> {
+    let _ = std::fs::remove_dir_all(dir);
+    std::fs::create_dir_all(dir).map_err(|e| format!("mkdir {}: {}", dir.display(), e))?;
+    for (name, text) in &p.files {
+        std::fs::write(dir.join(name), text).map_err(|e| format!("write {}: {}", name, e))?;
+    }
+    if let Some(t) = &p.toml {
+        std::fs::write(dir.join("mos.toml"), t).map_err(|e| format!("write mos.toml: {}", e))?;
+    }
+    let out = Command::new(mos)
+        .args(["-e", "Short", "--no-color", "format"])
+        .current_dir(dir)
+        .env_remove("RUST_LOG")
+        .env("RUST_BACKTRACE", "0")
+        .stdin(std::process::Stdio::null())
+        .output()
+        .map_err(|e| format!("cannot run {}: {}", mos.display(), e))?;
+    let mut files = vec![];
+    for (name, _) in &p.files {
+        let bytes = std::fs::read(dir.join(name)).map_err(|e| format!("read {}: {}", name, e))?;
+        files.push((name.clone(), bytes));
+    }
+    Ok(CliObs {
+        exit: out.status.code(),
+        stderr: String::from_utf8_lossy(&out.stderr).to_string() + &String::from_utf8_lossy(&out.stdout),
+    files,
+    })
+}
+
+/// what the in-process formatter says every file of the project should contain
+fn expected_files(p: &Project) -> Result<Option<Vec<(String, String)>>, PanicInfo> {
+    let files: Vec<(&str, &str)> = p.files.iter().map(|(n, t)| (n.as_str(), t.as_str())).collect();
+    let (tree, diags) = probe::parse_files(&files)?;
+    let tree = match tree {
+        Some(t) if diags.is_empty() => t,
+        _ => return Ok(None),
+    };
+    let mut out = vec![];
+    for (name, _) in &p.files {
+        let t = tree.clone();
+        let o = p.cfg.opts();
+        let n = name.clone();
+        if tree.try_get_file(name.as_str()).is_none() {
+            // not part of the parse tree: not formatted
+            continue;
+        }
+        out.push((name.clone(), guard(move || format(n, t, o))?));
+    }
+    Ok(Some(out))
+}
+
+fn cli_case_json(p: &Project) -> Value {
+    let mut files = serde_json::Map::new();
+    for (n, t) in &p.files {
+        files.insert(n.clone(), json!(t));
+    }
+    json!({"kind": "cli", "shape": p.shape, "files": files, "toml": p.toml, "config": p.cfg.json(), "error_in": p.error_in.map(|i| p.files[i].0.clone())})
+}
+
+fn projects(pool: &[String], n: usize, full: &[Cfg]) -> Vec<Project> {
+    let mut out = vec![];
+    let len = pool.len();
+    for i in 0..n {
+        let x = pool[(i * 131 + 7) % len].clone();
+        let y = pool[(i * 173 + 11) % len].clone();
+        let z = pool[(i * 197 + 13) % len].clone();
+        let (shape, mut files): (&'static str, Vec<(String, String)>) = match i % 4 {
+            0 => ("single", vec![("main.asm".into(), x)]),
+            1 => (
+                "main+other",
+                vec![
+                    ("main.asm".into(), format!(".import * from \"other.asm\"\n{}", x)),
+                    ("other.asm".into(), y),
+                ],
+            ),
+            2 => (
+                "chain",
+                vec![
+                    ("main.asm".into(), format!(".import * from \"other.asm\"\n{}", x)),
+                    ("other.asm".into(), format!("{}\n.import * from \"third.asm\"", y)),
+                    ("third.asm".into(), z),
+                ],
+            ),
+            _ => (
+                "fan",
+                vec![
+                    ("main.asm".into(), format!(".import * from \"other.asm\"\n{}\n  .import   * from \"third.asm\"", x)),
+                    ("other.asm".into(), y),
+                    ("third.asm".into(), z),
+                ],
+            ),
+        };
+        let error_in = if (i / 4) % 2 == 1 { Some((i / 8) % files.len()) } else { None };
+        if let Some(e) = error_in {
+            files[e].1.push_str(PARSE_ERROR);
+        }
+        let (toml, cfg) = match i % 5 {
+            0 => (None, Cfg::default()),
+            1 => (Some("[build]\nentry = \"main.asm\"\n".to_string()), Cfg::default()),
+            2 => {
+                let c = full[(i * 37 + 5) % full.len()];
+                (Some(c.toml(true)), c)
+            }
+            _ => {
+                let c = full[(i * 41 + 3) % full.len()];
+                (Some(c.toml(false)), c)
+            }
+        };
+        out.push(Project {
+            files,
+            toml,
+            cfg,
+            shape,
+            error_in,
+        });
+    }
+    out
+}
+
+/// Returns false on a machinery failure.
+fn cli_oracle(ctx: &Ctx, pool: &[String], n: usize, full: &[Cfg]) -> bool {
+    let mos = mos_path(ctx);
+    if !mos.is_file() {
+        eprintln!(
+            "C12: MACHINERY: mos executable not found at {} (build it: cd /repo && CARGO_TARGET_DIR=/verif/.build/bin cargo build --release --offline -p mos; or set MOS_BIN)",
+            mos.display()
+        );
+        return false;
+    }
+    let scratch = ctx.verif_root.join(".build/scratch/c12");
+    let counter = AtomicU64::new(0);
+    let machinery: Mutex<Option<String>> = Mutex::new(None);
+    let ps = projects(pool, n, full);
+    ctx.set("cli_projects", json!(ps.len()));
+    par_each(ps, |p: Project| {
+        let k = counter.fetch_add(1, Ordering::Relaxed);
+        let dir = scratch.join(format!("{}-{}", std::process::id(), k));
+        ctx.eval(|| cli_case_json(&p));
+        let expected = match expected_files(&p) {
+            Ok(e) => e,
+            Err(_) => {
+                ctx.count("cli_skipped_formatter_panics_in_process");
+                return;
+            }
+        };
+        // the injected error must be a parse error, and only then
+        if expected.is_none() != p.error_in.is_some() {
+            *machinery.lock().unwrap() = Some(format!(
+                "project {} (error_in {:?}): in-process parse {} diagnostics; files {:?}",
+                k,
+                p.error_in,
+                if expected.is_none() { "has" } else { "has no" },
+                p.files
+            ));
+            return;
+        }
+        let obs = match run_cli(&mos, &dir, &p) {
+            Ok(o) => o,
+            Err(e) => {
+                *machinery.lock().unwrap() = Some(e);
+                return;
+            }
+        };
+        let _ = std::fs::remove_dir_all(&dir);
+        ctx.nontrivial(fnv_str(&cli_case_json(&p).to_string()));
+        ctx.count(&format!("cli_{}_files", p.files.len()));
+        ctx.count(&format!("cli_exit_{}", obs.exit.map(|c| c.to_string()).unwrap_or_else(|| "signal".into())));
+        match expected {
+            None => {
+                ctx.count("cli_with_parse_error");
+                for ((name, before), (_, after)) in p.files.iter().zip(obs.files.iter()) {
+                    if before.as_bytes() != after.as_slice() {
+                        ctx.finding(Finding::new(
+                            format!("fmt:cli:{}:touched-on-parse-error", p.shape),
+                            format!(
+                                "parse error in {} but {} was rewritten: {:?} -> {:?} (exit {:?})",
+                                p.files[p.error_in.unwrap()].0,
+                                name,
+                                before,
+                                String::from_utf8_lossy(after),
+                                obs.exit
+                            ),
+                            cli_case_json(&p),
+                        ));
+                    }
+                }
+                if obs.exit == Some(0) {
+                    ctx.count("cli_parse_error_exit_0");
+                }
+            }
+            Some(exp) => {
+                ctx.count("cli_without_error");
+                if p.toml.as_deref().map(|t| t.contains("[formatting]")).unwrap_or(false) {
+                    ctx.count("cli_with_formatting_section");
+                }
+                for (name, want) in &exp {
+                    let got = obs.files.iter().find(|(n, _)| n == name).map(|(_, b)| b.clone()).unwrap_or_default();
+                    if want.as_bytes() != got.as_slice() {
+                        ctx.finding(Finding::new(
+                            format!("fmt:cli:{}:file-differs", p.shape),
+                            format!(
+                                "{} after `mos format` is {:?}, in-process format [{}] gives {:?} (exit {:?}, output {:?})",
+                                name,
+                                String::from_utf8_lossy(&got),
+                                p.cfg.name(),
+                                want,
+                                obs.exit,
+                                obs.stderr
+                            ),
+                            cli_case_json(&p),
+                        ));
+                    } else {
+                        ctx.count("cli_files_equal_to_in_process_format");
+                    }
+                }
+                if exp.len() != p.files.len() {
+                    ctx.count("cli_files_not_in_parse_tree");
+                }
+            }
+        }
+    });
+    if let Some(m) = machinery.lock().unwrap().clone() {
+        eprintln!("C12: MACHINERY: {}", m);
+        return false;
+    }
+    true
+}
+
+// ------------------------------------------------------------------------------------------------
+// replay
+
+fn replay_case(ctx: &Ctx, case: &Value) -> i32 {
+    let cfg = Cfg::from_json(&case["config"]);
+    if case["kind"] == "cli" {
+        let mut files = vec![];
+        if let Some(m) = case["files"].as_object() {
+            // main.asm first
+            for (n, t) in m {
+                files.push((n.clone(), t.as_str().unwrap_or("").to_string()));
+            }
+            files.sort_by_key(|(n, _)| n != "main.asm");
+        }
+        let p = Project {
+            files,
+            toml: case["toml"].as_str().map(|s| s.to_string()),
+            cfg,
+            shape: "replay",
+            error_in: None,
+        };
+        let dir = ctx.verif_root.join(format!(".build/scratch/c12/replay-{}", std::process::id()));
+        let obs = match run_cli(&mos_path(ctx), &dir, &p) {
+            Ok(o) => o,
+            Err(e) => {
+                eprintln!("C12: MACHINERY: {}", e);
+                return 2;
+            }
+        };
+        let _ = std::fs::remove_dir_all(&dir);
+        println!("mos.toml: {:?}\nexit: {:?}\noutput: {}", p.toml, obs.exit, obs.stderr);
+        let exp = expected_files(&p);
+        for ((name, before), (_, after)) in p.files.iter().zip(obs.files.iter()) {
+            println!("--- {} before:\n{}\n--- {} after `mos format`:\n{}", name, before, name, String::from_utf8_lossy(after));
+            match &exp {
+                Ok(Some(e)) => {
+                    if let Some((_, want)) = e.iter().find(|(n, _)| n == name) {
+                        println!(
+                            "--- in-process format says:\n{}\n=> {}",
+                            want,
+                            if want.as_bytes() == after.as_slice() { "EQUAL" } else { "DIFFERENT" }
+                        );
+                    }
+                }
+                Ok(None) => println!(
+                    "=> project has a parse error; file {}",
+                    if before.as_bytes() == after.as_slice() { "untouched" } else { "WAS REWRITTEN" }
+                ),
+                Err(p) => println!("=> in-process formatter panics: {} at {}", p.message, p.site),
+            }
+        }
+        return 0;
+    }
+    let text = case["files"]["main.asm"].as_str().unwrap_or("");
+    println!("configuration: {}\n--- original:\n{}\n---", cfg.name(), text);
+    let opts = Opts::default();
+    let mut stats = Stats::default();
+    let cfgs = [cfg];
+    for (name, mode) in [("C12", Mode { do12: true, do13: false }), ("C13", Mode { do12: false, do13: true })] {
+        let fails = process(ctx, text, &cfgs, &mode, &opts, &mut stats);
+        if !stats.parsed {
+            println!("original does not parse without diagnostics: no verdict");
+            return 0;
+        }
+        if name == "C12" {
+            if let Ok((Some(t), _)) = parse_main(text) {
+                match fmt_guard(&t, &cfg) {
+                    Ok(f1) => {
+                        println!("--- format(p):\n{}\n---", f1);
+                        if let Ok((Some(t1), d)) = parse_main(&f1) {
+                            if d.is_empty() {
+                                if let Ok(f2) = fmt_guard(&t1, &cfg) {
+                                    if f2 != f1 {
+                                        println!("--- format(format(p)):\n{}\n---", f2);
+                                    }
+                                }
+                            }
+                        }
+                    }
+                    Err(p) => println!("formatter panics: {} at {}", p.message, p.site),
+                }
+            }
+        }
+        if fails.is_empty() {
+            println!("{}: holds for this case", name);
+        }
+        for f in fails {
+            println!("{} FAILS ({}): {}", name, f.verdict, f.what);
+        }
+    }
+    0
+}
+
+// ------------------------------------------------------------------------------------------------
+// signatures: attribution to the uncommented program, reduction, wildcards
+
+fn stmt_children(s: &Stmt) -> Vec<&Vec<Stmt>> {
+    match s {
+        Stmt::Label { block: Some(b), .. } => vec![b],
+        Stmt::Braces(b) => vec![b],
+        Stmt::Loop { body, .. } => vec![body],
+        Stmt::If { then, els, .. } => {
+            let mut v = vec![then];
+            if let Some(e) = els {
+                v.push(e);
+            }
+            v
+        }
+        Stmt::MacroDef { body, .. } => vec![body],
+        Stmt::Segment { block: Some(b), .. } => vec![b],
+        Stmt::Import { block: Some(b), .. } => vec![b],
+        Stmt::Test { body, .. } => vec![body],
+        _ => vec![],
+    }
+}
+
+fn stmt_kind(s: &Stmt) -> String {
+    let r = render(std::slice::from_ref(s));
+    let k = r.kinds[0].to_string();
+    match s {
+        Stmt::If { els: Some(_), .. } => "if-else".into(),
+        _ => k,
+    }
+}
+
+/// Smallest statements (rendered alone) that still fail: `fails(text)`.
+fn minimal_failing(stmts: &[Stmt], fails: &dyn Fn(&str) -> bool, out: &mut Vec<(String, String)>) {
+    for s in stmts {
+        let text = stmt_text(s);
+        if !fails(&text) {
+            continue;
+        }
+        let before = out.len();
+        for c in stmt_children(s) {
+            minimal_failing(c, fails, out);
+        }
+        if out.len() == before {
+            out.push((stmt_kind(s), text));
+        }
+    }
+}
+
+/// one evaluated program with its result
+struct ItemOut {
+    parsed: bool,
+    survives: bool,
+    fails: Vec<Fail>,
+}
+
+/// a single-comment program as a row of the wildcard table
+struct Row {
+    item: usize,
+    construct: String,
+    before: String,
+    after: String,
+    ckind: String,
+    eligible: bool,
+}
+
+impl Row {
+    /// (pattern text, wildcarded: construct, around level 0 none / 1 before / 2 both, ckind)
+    fn patterns(&self) -> Vec<(String, bool, u8, bool)> {
+        let mut out = vec![];
+        for wc in [true, false] {
+            for wa in [2u8, 1, 0] {
+                for wk in [true, false] {
+                    if wc && wa == 0 {
+                        // the terminal before a slot is specific to the construct
+                        continue;
+                    }
+                    let c = if wc { "*" } else { self.construct.as_str() };
+                    let a = match wa {
+                        2 => "*".to_string(),
+                        1 => format!("*|{}", self.after),
+                        _ => format!("{}|{}", self.before, self.after),
+                    };
+                    let k = if wk { "*" } else { self.ckind.as_str() };
+                    out.push((format!("{}:{}:{}", c, a, k), wc, wa, wk));
+                }
+            }
+        }
+        out
+    }
+}
+
+#[derive(Default)]
+struct PatStat {
+    eligible: usize,
+    constructs: BTreeSet<String>,
+    befores: BTreeSet<String>,
+    arounds: BTreeSet<String>,
+    ckinds: BTreeSet<String>,
+    /// tag -> eligible rows failing with it
+    failing: BTreeMap<String, usize>,
+}
+
+/// Chooses, per failing row and tag, the most general pattern all of whose eligible rows fail
+/// with that tag (a component is only wildcarded when at least two of its values were enumerated).
+fn wildcard_signatures(rows: &[Row], row_tags: &[BTreeSet<String>]) -> Vec<BTreeMap<String, String>> {
+    let mut stats: HashMap<String, PatStat> = HashMap::new();
+    for (ri, row) in rows.iter().enumerate() {
+        if !row.eligible {
+            continue;
+        }
+        for (p, _, _, _) in row.patterns() {
+            let st = stats.entry(p).or_default();
+            st.eligible += 1;
+            st.constructs.insert(row.construct.clone());
+            st.befores.insert(row.before.clone());
+            st.arounds.insert(format!("{}|{}", row.before, row.after));
+            st.ckinds.insert(row.ckind.clone());
+            for t in &row_tags[ri] {
+                *st.failing.entry(t.clone()).or_insert(0) += 1;
+            }
+        }
+    }
+    let mut out = vec![];
+    for (ri, row) in rows.iter().enumerate() {
+        let mut m = BTreeMap::new();
+        for t in &row_tags[ri] {
+            let mut best: Option<(usize, String)> = None;
+            let pats = row.patterns();
+            for (p, wc, wa, wk) in &pats {
+                let specific = !*wc && *wa == 0 && !*wk;
+                let ok = match stats.get(p) {
+                    Some(st) => {
+                        st.failing.get(t).copied().unwrap_or(0) == st.eligible
+                            && st.eligible > 0
+                            && (!*wc || st.constructs.len() >= 2)
+                            && (*wa != 1 || st.befores.len() >= 2)
+                            && (*wa != 2 || st.arounds.len() >= 2)
+                            && (!*wk || st.ckinds.len() >= 2)
+                    }
+                    None => false,
+                };
+                if specific {
+                    if best.is_none() {
+                        best = Some((0, p.clone()));
+                    }
+                    break;
+                } else if ok && best.is_none() {
+                    // patterns come most general first
+                    best = Some((stats[p].eligible, p.clone()));
+                }
+            }
+            m.insert(t.clone(), best.unwrap().1);
+        }
+        out.push(m);
+    }
+    out
+}
+
+// ------------------------------------------------------------------------------------------------
+
+pub fn run(ctx: &Ctx, replay: Option<&Value>) -> i32 {
+    if let Some(case) = replay {
+        return replay_case(ctx, case);
+    }
+    let do12 = ctx.id == "C12";
+    let prefix = if do12 { "fmt" } else { "idem" };
+    let mode = Mode { do12, do13: !do12 };
+    let opts = Opts::default();
+    let thorough = ctx.tier.is_thorough();
+    let isa = Isa::new();
+    if let Err(e) = self_check(&opts) {
+        eprintln!("{}: MACHINERY: {}", ctx.id, e);
+        return 2;
+    }
+
+    // (override for timing experiments: VERIF_C12_PRODUCT=quick)
+    let full_product = configurations(true, &VALUES);
+    let quick_cfgs = configurations(false, &VALUES);
+    let use_full = thorough && std::env::var("VERIF_C12_PRODUCT").ok().as_deref() != Some("quick");
+    let cfgs: Vec<Cfg> = if use_full { full_product.clone() } else { quick_cfgs.clone() };
+    ctx.set("configurations", json!(cfgs.len()));
+
+    let mut progs: Vec<Prog> = c08::all_bases(&isa).into_iter().filter(|p| p.valid).collect();
+    progs.extend(extra_programs());
+    ctx.set("base_programs", json!(progs.len()));
+    let rendered: Vec<Rendered> = progs.iter().map(|p| render(&p.stmts)).collect();
+    let bases: Vec<String> = rendered.iter().map(|r| r.text()).collect();
+
+    // the base programs must be what they claim to be (parse and assemble without diagnostics)
+    for (i, p) in progs.iter().enumerate() {
+        let m = c08::meaning_of(&bases[i], &opts);
+        if !m.messages.is_empty() || m.panic.is_some() {
+            eprintln!("{}: MACHINERY: base program {} is not valid: {:?} {:?}", ctx.id, p.name, m.messages, m.panic);
+            return 2;
+        }
+    }
+
+    // ---- items: plain + whole-file variants + one comment per slot
+    let mut items: Vec<Item> = vec![];
+    let mut plain_of: Vec<usize> = vec![];
+    let mut slots_total = 0usize;
+    for (pi, r) in rendered.iter().enumerate() {
+        for v in FILE_VARIANTS.iter() {
+            let (text, ckind) = file_variant(&bases[pi], v);
+            let (before, after) = if ckind == "none" {
+                (String::new(), v.to_string())
+            } else {
+                (
+                    term_kind(r, r.terms.len() - 1),
+                    (if v.contains("own-line") || v.contains("mblock") { "eof-own-line" } else { "eof" }).to_string(),
+                )
+            };
+            if *v == "plain" {
+                plain_of.push(items.len());
+            }
+            items.push(Item {
+                prog: pi,
+                text,
+                labs: vec![Lab {
+                    construct: "file".into(),
+                    before,
+                    after,
+                    ckind,
+                }],
+                keys: vec![],
+            });
+        }
+        let slots = comment_slots(r);
+        slots_total += r.terms.iter().filter(|t| t.slot != Slot::None).count();
+        for (i, k) in slots {
+            let text = r.layout(&[comment_dev((i, k), 0)]).text;
+            items.push(Item {
+                prog: pi,
+                text,
+                labs: vec![slot_lab(r, i, k)],
+                keys: vec![(i, k)],
+            });
+        }
+    }
+    ctx.set("trivia_slots", json!(slots_total));
+    ctx.set("bound1_programs", json!(items.len()));
+
+    let eval_item = |item: &Item, cfgs: &[Cfg]| -> ItemOut {
+        let mut stats = Stats::default();
+        let fails = process(ctx, &item.text, cfgs, &mode, &opts, &mut stats);
+        if !stats.parsed {
+            // not a program that parses without errors: outside the quantifier (C08's subject)
+            ctx.count("programs_not_parsing");
+            ctx.count(&format!("not_parsing:{}", item.labs.iter().map(|l| l.s()).collect::<Vec<_>>().join("&")));
+            return ItemOut {
+                parsed: false,
+                survives: false,
+                fails,
+            };
+        }
+        ctx.count("programs_parsing");
+        ctx.count_n("cases", stats.cases);
+        ctx.count_n("cases_formatter_changed_the_text", stats.changed);
+        ctx.count_n("cases_formatter_left_the_text_unchanged", stats.unchanged);
+        ctx.count_n("distinct_formatter_outputs_analysed", stats.outputs.len() as u64);
+        ctx.count_n("formatted_texts_assembled", stats.meanings);
+        ctx.count_n("c13_formatted_text_does_not_parse_no_verdict", stats.second_parse_failed);
+        ctx.nontrivial_many(stats.outputs.iter().copied());
+        let failing: BTreeSet<usize> = fails.iter().map(|f| f.cfg).collect();
+        ctx.count_n("cases_failing", failing.len() as u64);
+        for f in &fails {
+            ctx.count(&format!("failing_clause:{}", f.verdict));
+        }
+        ItemOut {
+            parsed: true,
+            survives: stats.survives,
+            fails,
+        }
+    };
+
+    // tag of a failure = what the signature ends with: C12 the clause verdict, C13 the factor
+    let tags_of = |fails: &[&Fail], cfgs: &[Cfg]| -> Vec<String> {
+        let mut tracker = FactorTracker::new();
+        fails
+            .iter()
+            .map(|f| {
+                if do12 || f.verdict == "panic" {
+                    f.verdict.clone()
+                } else {
+                    tracker.factor(&cfgs[f.cfg])
+                }
+            })
+            .collect()
+    };
+
+    use rayon::prelude::*;
+    let outs: Vec<ItemOut> = items.par_iter().map(|it| eval_item(it, &cfgs)).collect();
+    ctx.set("wall_s_after_bound1", json!(ctx.wall()));
+
+    // ---- uncommented programs that fail: reduce to the smallest failing statements
+    // (prog, cfg, verdict-or-empty) -> signature
+    let mut plain_sig: HashMap<(usize, usize, String), String> = HashMap::new();
+    for (pi, p) in progs.iter().enumerate() {
+        let out = &outs[plain_of[pi]];
+        let fr: Vec<&Fail> = out.fails.iter().collect();
+        let tags = tags_of(&fr, &cfgs);
+        let mut sig_of_tag: BTreeMap<String, String> = BTreeMap::new();
+        for (f, t) in fr.iter().zip(tags.iter()) {
+            if !sig_of_tag.contains_key(t) {
+                // reduce under the first configuration showing this tag
+                let cfg1 = [cfgs[f.cfg]];
+                let verdict = f.verdict.clone();
+                let fails_alone = |text: &str| -> bool {
+                    let mut st = Stats::default();
+                    process(ctx, text, &cfg1, &mode, &opts, &mut st)
+                        .iter()
+                        .any(|g| !do12 || g.verdict == verdict)
+                };
+                let mut mins = vec![];
+                minimal_failing(&p.stmts, &fails_alone, &mut mins);
+                let mut kinds: Vec<String> = mins.iter().map(|m| m.0.clone()).collect();
+                kinds.sort();
+                kinds.dedup();
+                let construct = if kinds.is_empty() { format!("program-{}", p.name) } else { kinds.join("+") };
+                let sig = format!("{}:{}:plain:none:{}", prefix, construct, t);
+                // the reduced statements are cases of their own (smallest reproducers)
+                for (k, text) in &mins {
+                    let mut st = Stats::default();
+                    for g in process(ctx, text, &cfg1, &mode, &opts, &mut st) {
+                        if !do12 || g.verdict == verdict {
+                            ctx.finding(Finding::new(
+                                format!("{}:{}:plain:none:{}", prefix, if kinds.len() == 1 { k.clone() } else { construct.clone() }, t),
+                                g.what,
+                                case_json(text, &format!("{} reduced", p.name), &cfg1[0]),
+                            ));
+                        }
+                    }
+                }
+                sig_of_tag.insert(t.clone(), sig);
+            }
+            plain_sig.insert((pi, f.cfg, if do12 { f.verdict.clone() } else { String::new() }), sig_of_tag[t].clone());
+        }
+    }
+    let explained_by_plain = |prog: usize, f: &Fail, cfgs_here: &[Cfg]| -> Option<String> {
+        // configurations of the pair run are a prefix of the bound-1 list, same order
+        let _ = cfgs_here;
+        plain_sig
+            .get(&(prog, f.cfg, if do12 { f.verdict.clone() } else { String::new() }))
+            .cloned()
+    };
+
+    // C13: a program that is not idempotent under the default configuration although its
+    // uncommented base is has a defect of its own ('any'); nothing is attributed to the base then
+    let own_any = |prog: usize, fails: &[Fail]| -> bool {
+        !do12 && fails.iter().any(|f| f.cfg == 0) && !plain_sig.contains_key(&(prog, 0, String::new()))
+    };
+
+    // ---- bound-1 signatures
+    let mut rows: Vec<Row> = vec![];
+    let mut row_fails: Vec<Vec<(usize, String)>> = vec![]; // (index into fails, tag)
+    let mut emit: Vec<(String, usize, usize)> = vec![]; // (sig, item, fail index)
+    for (ii, (item, out)) in items.iter().zip(outs.iter()).enumerate() {
+        if !out.parsed || plain_of[item.prog] == ii {
+            if out.parsed {
+                for (fi, f) in out.fails.iter().enumerate() {
+                    if let Some(sig) = explained_by_plain(item.prog, f, &cfgs) {
+                        emit.push((sig, ii, fi));
+                    }
+                }
+            }
+            continue;
+        }
+        let mut residual: Vec<usize> = vec![];
+        let own = own_any(item.prog, &out.fails);
+        for (fi, f) in out.fails.iter().enumerate() {
+            match if own { None } else { explained_by_plain(item.prog, f, &cfgs) } {
+                Some(sig) => {
+                    ctx.count("failing_clauses_explained_by_the_uncommented_program");
+                    emit.push((sig, ii, fi));
+                }
+                None => residual.push(fi),
+            }
+        }
+        let fr: Vec<&Fail> = residual.iter().map(|fi| &out.fails[*fi]).collect();
+        let tags = tags_of(&fr, &cfgs);
+        let lab = &item.labs[0];
+        if lab.ckind == "none" {
+            for (fi, t) in residual.iter().zip(tags.iter()) {
+                emit.push((format!("{}:file:{}:none:{}", prefix, lab.after, t), ii, *fi));
+            }
+            continue;
+        }
+        rows.push(Row {
+            item: ii,
+            construct: lab.construct.clone(),
+            before: lab.before.clone(),
+            after: lab.after.clone(),
+            ckind: lab.ckind.to_string(),
+            eligible: if do12 { true } else { out.survives },
+        });
+        row_fails.push(residual.into_iter().zip(tags.into_iter()).collect());
+    }
+    let row_tags: Vec<BTreeSet<String>> = row_fails.iter().map(|v| v.iter().map(|(_, t)| t.clone()).collect()).collect();
+    let row_sigs = wildcard_signatures(&rows, &row_tags);
+    // (prog, terminal, comment kind) -> tag -> signature, for the pairs
+    let mut single_sig: HashMap<(usize, usize, usize), BTreeMap<String, String>> = HashMap::new();
+    // (slot label, tag) -> signature of a single-comment program with that label (any program)
+    let mut label_sig: HashMap<(String, String), String> = HashMap::new();
+    for (ri, row) in rows.iter().enumerate() {
+        let item = &items[row.item];
+        let mut m = BTreeMap::new();
+        for (fi, t) in &row_fails[ri] {
+            let sig = format!("{}:{}:{}", prefix, row_sigs[ri][t], t);
+            m.insert(t.clone(), sig.clone());
+            emit.push((sig, row.item, *fi));
+        }
+        for (t, sig) in &m {
+            label_sig.entry((item.labs[0].s(), t.clone())).or_insert_with(|| sig.clone());
+        }
+        if let Some(k) = item.keys.first() {
+            single_sig.insert((item.prog, k.0, k.1), m);
+        }
+    }
+    ctx.set("single_comment_programs_eligible_for_wildcards", json!(rows.iter().filter(|r| r.eligible).count()));
+    for (sig, ii, fi) in emit {
+        let f = &outs[ii].fails[fi];
+        if !do12 {
+            ctx.count(&format!("shape:{}:{}", sig, f.verdict));
+        }
+        if std::env::var("VERIF_C12_DUMP").ok().as_deref() == Some(f.verdict.as_str()) {
+            eprintln!("DUMP {} {:?} {}", sig, items[ii].text, f.what);
+        }
+        ctx.finding(Finding::new(sig, f.what.clone(), case_json(&items[ii].text, &progs[items[ii].prog].name, &cfgs[f.cfg])));
+    }
+    // texts for the projects of clause 5
+    let pool: Vec<String> = items
+        .iter()
+        .zip(outs.iter())
+        // (programs with imports of their own would import files the project does not have)
+        .filter(|(it, o)| o.parsed && it.keys.len() == 1 && !it.text.to_lowercase().contains(".import"))
+        .map(|(it, _)| it.text.clone())
+        .collect();
+    drop(outs);
+
+    // ---- bound 2 (thorough): all pairs of comment slots at most 6 terminals apart, quick configurations
+    if thorough {
+        ctx.set("configurations_for_pairs", json!(quick_cfgs.len()));
+        let mut pairs: Vec<Item> = vec![];
+        for (pi, r) in rendered.iter().enumerate() {
+            let slots = comment_slots(r);
+            for a in 0..slots.len() {
+                for b in a + 1..slots.len() {
+                    if slots[b].0 - slots[a].0 > 6 {
+                        break;
+                    }
+                    if slots[a].0 == slots[b].0 && slots[a].1 >= 3 && slots[b].1 >= 3 {
+                        // both would replace the same separator
+                        continue;
+                    }
+                    let text = r.layout(&[comment_dev(slots[a], 0), comment_dev(slots[b], 1)]).text;
+                    pairs.push(Item {
+                        prog: pi,
+                        text,
+                        labs: vec![slot_lab(r, slots[a].0, slots[a].1), slot_lab(r, slots[b].0, slots[b].1)],
+                        keys: vec![slots[a], slots[b]],
+                    });
+                }
+            }
+        }
+        ctx.set("pair_programs", json!(pairs.len()));
+        pairs.par_iter().for_each(|item| {
+            let out = eval_item(item, &quick_cfgs);
+            if !out.parsed {
+                return;
+            }
+            let mut residual: Vec<&Fail> = vec![];
+            let own = own_any(item.prog, &out.fails);
+            for f in &out.fails {
+                match if own { None } else { explained_by_plain(item.prog, f, &quick_cfgs) } {
+                    Some(sig) => {
+                        ctx.count("failing_clauses_explained_by_the_uncommented_program");
+                        ctx.finding(Finding::new(sig, f.what.clone(), case_json(&item.text, &progs[item.prog].name, &quick_cfgs[f.cfg])));
+                    }
+                    None => residual.push(f),
+                }
+            }
+            let tags = tags_of(&residual, &quick_cfgs);
+            for (f, t) in residual.iter().zip(tags.iter()) {
+                let of = |k: &(usize, usize)| single_sig.get(&(item.prog, k.0, k.1));
+                let exact = item.keys.iter().filter_map(|k| of(k).and_then(|m| m.get(t))).next();
+                let any = item.keys.iter().filter_map(|k| of(k).and_then(|m| m.values().next())).next();
+                // the same kind of slot failing the same way in another program
+                let same_label = item.labs.iter().filter_map(|l| label_sig.get(&(l.s(), t.clone()))).next();
+                let exact = exact.or(same_label);
+                let sig = match (exact, any) {
+                    (Some(s), _) => {
+                        ctx.count("pair_failures_explained_by_a_single_comment");
+                        s.clone()
+                    }
+                    (None, Some(s)) if !do12 => {
+                        ctx.count("pair_failures_explained_by_a_single_comment");
+                        s.clone()
+                    }
+                    _ => format!("{}:pair:{}&{}:{}", prefix, item.labs[0].s(), item.labs[1].s(), t),
+                };
+                if !do12 {
+                    ctx.count(&format!("shape:{}:{}", sig, f.verdict));
+                }
+                ctx.finding(Finding::new(sig, f.what.clone(), case_json(&item.text, &progs[item.prog].name, &quick_cfgs[f.cfg])));
+            }
+        });
+        ctx.set("wall_s_after_pairs", json!(ctx.wall()));
+    }
+    ctx.set("comment_bound", json!(if thorough { 2 } else { 1 }));
+
+    // ---- clause 5: the real binary
+    if do12 && !cli_oracle(ctx, &pool, if thorough { 500 } else { 50 }, &full_product) {
+        return 2;
+    }
+
+    let product = if use_full { "full product of 960 configurations" } else { "default + 13 one-factor deviations" };
+    let rule = format!(
+        "programs = valid base programs (C08 set incl. every statement form of the C01 catalogue + 4 formatter shapes: long labels, label runs, empty blocks, mixed statement kinds) x {{11 whole-file variants (plain, blank lines, indentation, leading/trailing blank lines, CRLF, 4 comments before end of file), one comment at every trivia slot: `/* c1 */` at ws slots; at mws slots also `// c2`, a two-line block comment and, where the slot holds a line break, a line / block comment ending the previous line}} x {}{}; every program that parses without diagnostics is formatted under every configuration. {} non-trivial = distinct (program, formatter output) pair whose output differs from the input{}. Signatures: a failure also shown by the uncommented program under the same configuration is attributed to it (construct = smallest statements failing alone); a component of a slot signature is `*` when every enumerated program matching the rest fails the same way (at least two values enumerated)",
+        product,
+        if thorough { "; all pairs of comment slots <= 6 terminals apart (distinct texts) x the 14 quick configurations" } else { "" },
+        if do12 {
+            "Oracle: formatted text parses without diagnostics; code token string (own lexer, case folded) equal; segment bytes, symbols and normalised diagnostics equal; whitespace-normalised comment sequence equal; `mos format` (real binary) on 1-3-file projects leaves exactly the in-process formatter's text in every file, and the original bytes in all files when one file has a parse error."
+        } else {
+            "Oracle: parse(format(p)) formatted again with the same configuration gives the same text (a third application classifies settles / two-cycle / drift)."
+        },
+        if do12 { " (plus every executed `mos format` project)" } else { "" }
+    );
+    ctx.finish(
+        "exploration",
+        &rule,
+        true,
+        &[
+            "trivia slots are those of the harness grammar (derived by reading the parser); programs whose commented text does not parse without diagnostics are outside the quantifier and only counted",
+            "one comment per program (quick), two within 6 terminals (thorough, 14 configurations only)",
+            "comment texts are compared after collapsing whitespace; code tokens after ASCII case folding; diagnostics without positions",
+            "C13 takes no verdict when format(p) does not parse (that is C12's clause 1); for wildcards in C13 signatures only programs whose comment survives formatting count as enumerated",
+            "clause 5 compares file contents only; the exit status of `mos format` is counted, not judged",
+        ],
+    )
 }
